@@ -775,9 +775,11 @@ example : (match exec2 (browserCfg ["_x._tcp.local."] 10000 none) {} 0
 live in a store and the heap and the per-alias dict hold their ids (the representation of `Sched2`), `heapq` is the ascending-list
 abstraction, timers and `async_send_ready_queries` are returned effects.  `GenFacts/FnSched.lean` proves the model's steps equal to
 the translated bodies for: the five comparison methods, `start`, `stop`, `_arm_ready_types`, `_rearm_if_earlier`,
-`_process_startup_queries` and constructor + `_schedule_ptr_query` (`schedule2`).  **Open** (translated and differentially
-self-tested, equation not yet proved): `cancel_ptr_refresh`, `reschedule_ptr_first_refresh`, `schedule_rescue_query`,
-`_process_ready_types`. -/
+`_process_startup_queries`, constructor + `_schedule_ptr_query` (`schedule2`), `cancel_ptr_refresh` (`cancel2`),
+`reschedule_ptr_first_refresh` (`reschedule2`) and `schedule_rescue_query` (`rescueOf` + `schedule2`).  **Open** (translated and
+differentially self-tested, equation not yet proved): `_process_ready_types` (`fireReady2`), and hence no equation between whole runs
+(`exec2`) and sequences of translated calls: the theorems of this file about runs remain theorems about the hand-written `step2`,
+whose blocks — all but one — are the translated bodies by the lemmas below. -/
 section Tie
 open Zc.Py Zc.Sched2 Zc.GenFn.Sched Zc.GenFacts.FnSched
 
@@ -808,6 +810,29 @@ theorem C10_schedule_source {c : Cfg} {s : QueryScheduler} {m : S2} (h : Rel c s
       ∧ Rel c s' (schedule2 m (toQ o)) ∧ StoreOk s'
       ∧ armedAfter now m.armed eff = (schedule2 m (toQ o)).armed :=  by
   obtain ⟨s', eff, h1, h2, h3, _, h4, _⟩ := schedule_new_eq h hok hl o now
+  exact ⟨s', eff, h1, h2, h3, h4⟩
+
+/-- **Cancelling and re-scheduling in the translated code** are the model's `cancel2` / `reschedule2` (`a` = the pointer's lower-cased
+alias; `hdh`: the object the dict names is in the heap — in Python the dict holds the object itself). -/
+theorem C10_cancel_reschedule_source {c : Cfg} {s : QueryScheduler} {m : S2} (lower : String → String) (h : Rel c s m) (hok : StoreOk s)
+    (hl : s.loop.isSome) (p : Rec) (a : String) (ha : Rec.attrAliasKey lower p = .ok a) (now : Int)
+    (hdh : ∀ i, PyDict.get? strEq s.next_scheduled_for_alias a = some i → i ∈ s.query_heap) :
+    (∃ s', QueryScheduler.cancel_ptr_refresh lower s p = .ok s' ∧ Rel c s' (cancel2 m a) ∧ StoreOk s')
+    ∧ (∃ s' eff m', QueryScheduler.reschedule_ptr_first_refresh lower s p = .ok (s', eff)
+        ∧ reschedule2 c m a p.name p.ttl p.created = .ok m' ∧ Rel c s' m' ∧ StoreOk s'
+        ∧ armedAfter now m.armed eff = m'.armed) := by
+  obtain ⟨s1, h1, h2, h3, _⟩ := cancel_ptr_refresh_eq lower h hok p a ha
+  obtain ⟨s2, eff, m', g1, g2, g3, g4, _, g5, _⟩ := reschedule_ptr_first_refresh_eq lower h hok hl p a ha now hdh
+  exact ⟨⟨s1, h1, h2, h3⟩, ⟨s2, eff, m', g1, g2, g3, g4, g5⟩⟩
+
+/-- **The rescue query of the translated code** (10 % of the TTL after the refresh, dropped when that is at or past the expiry) is
+the model's `rescueOf` + `schedule2`. -/
+theorem C10_rescue_source {c : Cfg} {s : QueryScheduler} {m : S2} (h : Rel c s m) (hok : StoreOk s) (hl : s.loop.isSome)
+    (i : Nat) (o : ScheduledPTRQuery) (ho : PyStore.get? s.store i = some o) (hc : o.cancelled = false) (now clk : Int) :
+    ∃ s' eff, s.schedule_rescue_query i now 100 = .ok (s', eff)
+      ∧ Rel c s' (rescueStep now m (toQ o)) ∧ StoreOk s'
+      ∧ armedAfter clk m.armed eff = (rescueStep now m (toQ o)).armed := by
+  obtain ⟨s', eff, h1, h2, h3, _, h4, _⟩ := schedule_rescue_query_eq h hok hl i o ho hc now clk
   exact ⟨s', eff, h1, h2, h3, h4⟩
 
 end Tie
